@@ -272,7 +272,9 @@ func genC12(g *Gen, tier string) *Program {
 		// be. One more task fills two of them with long-named counters; a packet
 		// that came out larger than the reporter reckoned is refused by the
 		// transport, so an under-estimate shows up as lost metrics.
-		p.Cfg.M3.MaxPacket = pick(g, int32(65000), int32(65000), int32(64999), int32(64000))
+		// "... up to the UDP maximum": 65 507 bytes is what a UDP datagram can carry,
+		// 65 000 what this transport accepts
+		p.Cfg.M3.MaxPacket = pick(g, int32(65000), int32(65000), int32(64999), int32(64000), int32(65507), int32(65001), int32(65535))
 		m := 1000
 		p.Prelude = append(p.Prelude, Op{K: "m3ac", M: m, Name: genName(g, pick(g, 600, 599, 587), 99), Tags: map[string]string{"a": "1"}})
 		var ops []Op
